@@ -382,6 +382,9 @@ func cmdCheck(args []string) int {
 		// bounded stand-ins / executable contracts on the real code
 		standins = runStandins(reg, pr, *prop, wd)
 		for _, s := range standins {
+			if br, _ := s["adapter_broken"].(bool); br {
+				exit = 2
+			}
 			if f, _ := s["failed"].(bool); f {
 				os.MkdirAll(replayDir, 0o755)
 				path := filepath.Join(replayDir, "standin-"+sanitizeFile(fmt.Sprint(s["function"]))+".json")
